@@ -520,6 +520,10 @@ def gen_trailing_cases(r):
             conf = (line + "\n").encode()
             # a list of strings legitimately takes further words; everything else must be refused
             must = not (kind == "W" and fam in ("junk-word", "keyword-and-value", "second-value"))
+            if kind == "W" and fam == "brace-pair" and "{" in v1:
+                # `key {x} { x }`: the value of a braced keyword is the text between the FIRST `{` and the LAST `}` of the line,
+                # so the strings are `x}`, `{`, `x` - odd, but every byte is taken as a value, nothing is dropped (NOTES.md)
+                must = False
             if kind in ("V", "J", "Y3") and fam == "second-value":
                 must = False                      # one more number in a list of numbers is a longer list
             sch = "%s:%s,%s:%s" % (kind, hx(k1), other_kind, hx(k2))
